@@ -8,6 +8,8 @@ central differences of the SAME jitted function.
 """
 from __future__ import annotations
 
+import os
+
 import numpy as np
 
 from .. import core, mj
@@ -25,11 +27,11 @@ META = dict(
          "||next qpos||^2, weighted sum of next qvel, weighted sum of sensordata, weighted sum of bias+passive+actuator forces.",
     note="Finite differences and autodiff are taken of the identical MJX function, so the oracle is independent of the C engine. "
          "qpos is perturbed through a smooth exponential-map tangent written in the check (not MJX's quat_integrate). "
-         "Tolerance |g-fd| <= 1e-5*blockscale + 1e-6*(1+|f|), step 1e-6*max(1,|x|).",
+         "Tolerance |g-fd| <= 1e-5*blockscale + 1e-6*(1+|f|); Richardson-extrapolated central differences, steps h and h/2, h = 2e-5*max(1,|x|).",
     design_ref="DESIGN.md §3 C45")
 
 RTOL, ATOL = 1e-5, 1e-6
-H_STEP = 1e-6
+H_STEP = 2e-5
 
 
 def quat_mul(jp, a, b):
@@ -119,6 +121,11 @@ def check_model(J, lib, part, item):
     try:
         Jx = {k: np.asarray(v) for k, v in jf(T, B).items()}      # block -> (nstate, nprobe, ...)
     except Exception as e:
+        if mode == "rev" and "while_loop" in str(e) and int(np.asarray(dx0._impl.efc_type).size):
+            part.add("reverse_mode_raises_in_solver_while_loop")
+            part.count(1, key=(item["name"], "rev-raises"))
+            mt.free()
+            return
         part.violation("autodiff raises (%s mode) @ %s" % (mode, item["name"].split("#")[0]),
                        "%s: %s" % (type(e).__name__, str(e)[:300]), {"xml": item["xml"], "mode": mode})
         mt.free()
@@ -136,13 +143,17 @@ def check_model(J, lib, part, item):
         fd = np.zeros((len(states), len(PROBES), n))
         for c in range(n):
             hs = np.array([H_STEP * max(1.0, abs(t[blk].reshape(-1)[c])) for t in thetas])
-            plus, minus = dict(T), dict(T)
-            e = np.zeros((len(states), n))
-            e[:, c] = hs
-            e = e.reshape(np.asarray(T[blk]).shape)
-            plus[blk] = T[blk] + e
-            minus[blk] = T[blk] - e
-            fd[:, :, c] = (np.asarray(pf(plus, B)) - np.asarray(pf(minus, B))) / (2 * hs[:, None])
+
+            def central(hh):
+                plus, minus = dict(T), dict(T)
+                e = np.zeros((len(states), n))
+                e[:, c] = hh
+                e = e.reshape(np.asarray(T[blk]).shape)
+                plus[blk] = T[blk] + e
+                minus[blk] = T[blk] - e
+                return (np.asarray(pf(plus, B)) - np.asarray(pf(minus, B))) / (2 * hh[:, None])
+            # Richardson extrapolation of central differences (steps h and h/2): O(h^4) truncation error
+            fd[:, :, c] = (4.0 * central(hs / 2) - central(hs)) / 3.0
         g = Jx[blk].reshape(len(states), len(PROBES), n)
         for si in range(len(states)):
             part.count(1, key=(item["name"], mode, blk, si),
@@ -160,7 +171,7 @@ def check_model(J, lib, part, item):
                 scale = max(np.max(np.abs(gv)), np.max(np.abs(fv)))
                 tol = RTOL * scale + ATOL * (1.0 + abs(f0[si, pi]))
                 err = float(np.max(np.abs(gv - fv)) / tol)
-                k = "%s:%s" % (mode, blk)
+                k = "%s:%s%s" % (mode, blk, ":norm0-state" if zero_rotation_or_angvel(mt, states[si], True) else "")
                 stats[k] = max(stats.get(k, 0.0), err)
                 if err > 1:
                     c = int(np.argmax(np.abs(gv - fv)))
@@ -174,7 +185,7 @@ K_NORM0 = ("math.norm's zero guard kills derivatives through normalize_with_norm
            "at zero relative rotation (ball/free springs, ball actuator length) and quat_integrate at zero angular velocity")
 
 
-def zero_rotation_or_angvel(mt, st):
+def zero_rotation_or_angvel(mt, st, angvel_only=False):
     """True if some ball/free joint sits exactly at its spring reference orientation or has exactly zero angular velocity."""
     q, v, qs = np.asarray(st["qpos"]), np.asarray(st["qvel"]), np.array(mt.qpos_spring)
     for j in range(mt.njnt):
@@ -182,8 +193,11 @@ def zero_rotation_or_angvel(mt, st):
         if t > 1:
             continue
         qa, da = int(mt.jnt_qposadr[j]) + (3 if t == 0 else 0), int(mt.jnt_dofadr[j]) + (3 if t == 0 else 0)
-        if np.allclose(q[qa:qa + 4], qs[qa:qa + 4], atol=1e-9) or np.allclose(q[qa:qa + 4], [1, 0, 0, 0], atol=1e-9):
-            return True
+        if not angvel_only and mt.jnt_stiffness[j] > 0 and np.allclose(q[qa:qa + 4], qs[qa:qa + 4], atol=1e-9):
+            return True     # spring torque = -k * quat_sub(q, q_spring) at zero relative rotation
+        driven = any(int(mt.actuator_trntype[a]) in (0, 1) and int(mt.actuator_trnid[a][0]) == j for a in range(mt.nu))
+        if not angvel_only and driven and t == 1 and np.allclose(q[qa:qa + 4], [1, 0, 0, 0], atol=1e-9):
+            return True     # ball actuator length = quat_to_axis_angle(q) at the identity
         if not np.any(v[da:da + 3]):
             return True
     return False
@@ -191,6 +205,8 @@ def zero_rotation_or_angvel(mt, st):
 
 def classify(item, mt, blk, pi, st, what, coord=None):
     fam = item["name"].split("#")[0]
+    if what == "nan":
+        return "non-finite derivative d/d%s @ %s" % (blk, fam)
     if zero_rotation_or_angvel(mt, st):
         return K_NORM0
     return "grad %s d/d%s probe%d @ %s" % (what, blk, pi, fam)
@@ -233,27 +249,28 @@ def alphabet(thorough):
         for md in modes:
             items.append(dict(it, name="%s#%s" % (it["name"], "/".join(desc)), mode=md, nstate=nstate))
     ns = 6 if thorough else 4
-    trees = [((-1, 0), ("hinge", "slide")), ((-1,), ("ball",)), ((-1,), ("free",)), ((-1, 0), ("free", "hinge")),
-             ((-1, -1), ("slidehinge", "ball"))]
+    trees = [((-1, 0), ("hinge", "slide")), ((-1,), ("ball",)), ((-1, 0), ("free", "hinge")), ((-1, -1), ("slidehinge", "ball"))]
     if thorough:
-        trees += [((-1,), ("hinge2",)), ((-1, 0), ("ball", "slide")), ((-1, 0), ("hinge", "ball")), ((-1, 0, 1), ("hinge", "hinge", "slide"))]
+        trees += [((-1,), ("free",)), ((-1,), ("hinge2",)), ((-1, 0), ("ball", "slide")), ((-1, 0), ("hinge", "ball")), ((-1, 0, 1), ("hinge", "hinge", "slide"))]
     for ti, (par, js) in enumerate(trees):
         op, desc = o(ti)
         it = G.tree_model("smooth[%s]" % ",".join(js), par, js, op, tendon=True, gravcomp=(ti % 2 == 0), actuators=1,
                           sensors=1, spatial=(ti == 0) and "plain")
         add(it, desc, ["rev"] + (["fwd"] if thorough else []), ns)
-    # steadily active constraints: reverse mode needs iterations=1 (no reverse rule for while_loop), forward mode converged
-    for ti, (par, js) in enumerate([((-1, 0), ("hinge", "slide"))] + ([((-1,), ("ball",))] if thorough else [])):
-        for mode, iters in (("rev", 1), ("fwd", 50)):
-            op, desc = o(2 * ti, iterations=iters)
-            it = G.tree_model("constr[%s]" % ",".join(js), par, js, op, limits=True, friction=True, equality=["connect"],
-                              tendon="full", actuators=1, sensors=1)
-            add(it, desc + ("iter%d" % iters,), [mode], ns)
-    for ci, pairs in enumerate([[("plane", "sphere")], [("plane", "capsule"), ("sphere", "sphere")]] if thorough else [[("plane", "sphere")]]):
-        for mode, iters in (("rev", 1), ("fwd", 50)):
-            op, desc = o(ci * 3 + (1 if mode == "fwd" else 0), iterations=iters)
-            it = G.contact_model("contact[%s]" % "+".join("-".join(p_) for p_ in pairs), op, pairs, condim=3)
-            add(it, desc + ("iter%d" % iters,), [mode], ns)
+    # steadily active constraints / contacts.  MJX's solver iterates with lax.while_loop, for which JAX defines no reverse
+    # rule, so reverse mode raises (counted outcome "reverse_mode_raises", see check_model); with opt.iterations == 1 MJX
+    # unrolls one iteration, but the result then depends on the line search's discrete decisions and is not a smooth
+    # function of the inputs, so only the converged solver is differentiated (forward mode).
+    for ti, (par, js) in enumerate([((-1, 0), ("hinge", "slide"))] + ([((-1,), ("ball",)), ((-1, 0), ("free", "hinge"))] if thorough else [])):
+        op, desc = o(2 * ti, iterations=50)
+        it = G.tree_model("constr[%s]" % ",".join(js), par, js, op, limits=True, friction=True, equality=["connect"],
+                          tendon="full", actuators=1, sensors=1)
+        add(it, desc + ("iter50",), ["fwd"] + (["rev"] if ti == 0 else []), ns)
+    scenes = [[("plane", "sphere")]] + ([[("plane", "capsule"), ("sphere", "sphere")]] if thorough else [])
+    for ci, pairs in enumerate(scenes):
+        op, desc = o(ci * 3 + 1, iterations=50)
+        it = G.contact_model("contact[%s]" % "+".join("-".join(p_) for p_ in pairs), op, pairs, condim=3)
+        add(it, desc + ("iter50",), ["fwd"], ns)
     return items
 
 
@@ -273,6 +290,10 @@ class _Merger:
 def run(ctx):
     mj.load()
     items = alphabet(ctx.thorough)
+    only = os.environ.get("VERIF_ONLY")      # debugging aid (mutation demos): restrict to items whose name/task contains a token
+    if only:
+        items = [it for it in items if any(t in (it["name"] + " " + it.get("task", "") + " " + it.get("fn", "")) for t in only.split(";"))]
+        ctx.exhaustive = False
     mg = _Merger(ctx)
     core.pmap(mg, _chunk, items, nchunks=len(items))
     ctx.extra["items"] = len(items)
@@ -284,7 +305,7 @@ def run(ctx):
                 "smooth states (qpos lattice x {0, mixed} qvel x in-range ctrl x act); per state 5 probes x 7 parameter blocks "
                 "(qpos tangent, qvel, ctrl, act, body_mass, dof_damping, actuator gain), every coordinate differenced. "
                 "non-trivial = each (model, mode, block, state)." % len(items))
-    ctx.assumptions = ["central differences with step 1e-6*max(1,|x|) of the same jitted float64 function are accurate to "
+    ctx.assumptions = ["Richardson-extrapolated central differences (h = 2e-5*max(1,|x|), h/2) of the same jitted float64 function are accurate to "
                        "1e-5 relative (measured: ctx.extra['max_err_over_tol'])",
                        "reverse mode on constrained models uses opt.iterations=1 (MJX's solver uses lax.while_loop otherwise); "
                        "the converged solver is covered in forward mode"]
